@@ -17,7 +17,9 @@ RULE = ('cases: (net, ~85%) the real gsom::Network built from 4-59 integer-value
         'by the recorded per-input decisions (best matching unit, growth) and compared after every call on keys, node coordinates, '
         'weight dimensions, hit counters, capacities and stored individuals. (pop, ~15%) the real Rosomaxa population: add_all / '
         'on_generation histories around the initial-size and exploration-ratio boundaries; phases compared with the model, '
-        'NetworkState checked. non-trivial = net histories in which the map grew or was compacted, pop histories reaching Exploration.')
+        'NetworkState checked. (ctx, 12 per quick run) real vrp-core InsertionContexts with 0 / 1 / several routes and job-less routes built '
+        'through the public API (cheapest insertion on small CVRPs, some with nothing assignable): on_init + weights() must be finite and '
+        '15-dimensional; the vectors are fed to the real Network, the real RosomaxaPopulation of vrp-core and sometimes a real solve. non-trivial = net histories in which the map grew or was compacted, pop histories reaching Exploration.')
 TRUSTED = ['instrumented storage of the harness (wraps the real Elitism with the same five calls as rosomaxa.rs::IndividualStorage, '
            'dedup = equal tag) and its event log (create/add/drain) from which per-input decisions are reconstructed',
            'float-decided choices (best matching unit, error >= growing threshold, sort/shuffle order of re-trained individuals) are '
@@ -157,12 +159,30 @@ def gen_long(rng, tier):
     return {'kind': 'net', 'brief': True, 'seed': rng.below(1 << 30), 'cfg': cfg, 'data': data, 'ops': ops, 'stream': 'duplicated', 'dim': dim}
 
 
+MAKES = ['empty', 'new', 'cheapest', 'cheapest', 'cheapest', 'cheapest-plus-empty-route', 'only-empty-route']
+
+
+def gen_ctx(rng, tier):
+    """real vrp-core InsertionContexts (0, 1, several routes, job-less routes) -> RosomaxaSolution::on_init -> weights()"""
+    cap = rng.range(2, 4)
+    nj = rng.range(3, 8)
+    mode = rng.below(4)                           # 0: nothing assignable, 1: mixed, 2-3: all assignable
+    demands = [cap + 1 + rng.below(3) if mode == 0 or (mode == 1 and rng.chance(1, 3)) else rng.range(1, cap) for _ in range(nj)]
+    makes = [rng.choice(MAKES) for _ in range(rng.range(4, 6))]
+    if mode >= 2 and rng.chance(1, 2):
+        makes = [m for m in makes if m not in ('empty', 'new')] + ['cheapest'] * 4
+    return {'kind': 'ctx', 'seed': rng.below(1 << 30), 'demands': demands, 'vehicles': rng.range(1, 4), 'capacity': cap,
+            'make': makes[:6], 'pop_gens': 4, 'solve_gens': 12 if rng.chance(1, 4) else 0, 'stream': 'vrp-solutions', 'dim': 15}
+
+
 def generate(rng, tier, n):
     cases = []
     for _ in range(n):
         cases.append(gen_pop(rng, tier) if rng.chance(3, 20) else gen_net(rng, tier))
     for _ in range(3 if tier == 'quick' else 40):
         cases.append(gen_long(rng.fork('long%d' % len(cases)), tier))
+    for _ in range(12 if tier == 'quick' else 150):
+        cases.append(gen_ctx(rng.fork('ctx%d' % len(cases)), tier))
     return cases
 
 
@@ -191,6 +211,8 @@ def ool(r):
 
 
 def model_term(c, impl):
+    if c['kind'] == 'ctx':
+        return 'run_route_less'
     if c['kind'] == 'pop':
         cfg = c['cfg']
         ops = []
@@ -253,6 +275,15 @@ def real_ops(c):
 
 def compare(c, impl, model):
     if c.get('brief'):
+        return None
+    if c['kind'] == 'ctx':
+        if 'panic' in impl:
+            return 'implementation panicked: %s' % impl['panic']
+        for x in impl['ctxs']:
+            if x['routes'] == 0:
+                zero12 = all(int(b) in (0, 1 << 63) for b in x['weights'][:12])
+                if zero12 != (model == 'true'):
+                    return 'route-derived weights of a route-less solution (%s): impl all-zero=%s, model all-zero=%s' % (x['make'], zero12, model)
         return None
     if c['kind'] == 'pop':
         if 'panic' in impl:
@@ -326,10 +357,48 @@ def wf_dump(t, name, dim, node_size, v, monitors=True):
             v.append({'class': cl + '-after-' + name, 'what': key + ' (exploration-level monitor on the implementation)'})
 
 
+FINDING_NAN = 'nan-weights-for-route-less-solution'
+
+
+def oracle_ctx(c, impl):
+    """weights of real solutions are finite and of one dimension; what the real Network / RosomaxaPopulation / Solver do with them"""
+    v = []
+    nan_routeless = [x for x in impl['ctxs'] if x['nonfinite'] and x['routes'] == 0]
+    for x in impl['ctxs']:
+        if x['dim'] != 15:
+            v.append({'class': 'solution-weights-dimension-%d' % x['dim'], 'what': 'weights() of a solution has dimension %d' % x['dim']})
+        if x['nonfinite'] and x['routes'] > 0:
+            v.append({'class': 'nonfinite-weights-for-solution-with-routes', 'what': 'weights %s not finite (%s, %d routes)' % (x['nonfinite'], x['make'], x['routes'])})
+    net, pop, solve = impl['net'], impl['pop'], impl['solve']
+    for name, r in (('network', net), ('population', pop), ('solve', solve)):
+        if r and 'panic' in r:
+            v.append({'class': 'panic-in-%s-on-real-solution-weights' % name, 'what': r['panic']})
+    net_nan = sum(t['nonfinite_w'] + t['nonfinite_m'] + t['nonfinite_e'] for t in net.get('trace', []))
+    pop_nan = sum((t['net'] or {}).get('nonfinite_w', 0) + (0 if (t['net'] or {'mse_fin': True})['mse_fin'] else 1) for t in pop.get('trace', []))
+    if nan_routeless:
+        v.append({'class': FINDING_NAN,
+                  'what': 'weights()[%s] are not finite for a solution without routes (%s); downstream: %d non-finite node weights/measures in '
+                          'the real Network, %d in the RosomaxaPopulation network' % (nan_routeless[0]['nonfinite'],
+                          nan_routeless[0]['make'], net_nan, pop_nan)})
+    elif net_nan or pop_nan:
+        v.append({'class': 'nonfinite-map-from-finite-solution-weights', 'what': 'network %d population %d' % (net_nan, pop_nan)})
+    for t in net.get('trace', []):
+        if t['size'] < 4 or t['find_bad']:
+            v.append({'class': 'malformed-map-on-real-solution-weights', 'what': str(t)})
+    prev = 0
+    for t in pop.get('trace', []):
+        if t['phase'] < prev or t['elite'] > 2:
+            v.append({'class': 'population-phase-or-elite-on-real-solutions', 'what': str(t)})
+        prev = t['phase']
+    return v
+
+
 def oracle(c, impl):
     v = []
     if 'panic' in impl:
         return [{'class': 'panic-outside-operation', 'what': impl['panic']}]
+    if c['kind'] == 'ctx':
+        return oracle_ctx(c, impl)
     tr = impl['trace']
     if c['kind'] == 'pop':
         prev = 0
@@ -406,6 +475,8 @@ def oracle(c, impl):
 def nontrivial_key(c, impl):
     if 'panic' in impl:
         return None
+    if c['kind'] == 'ctx':
+        return ('ctx', c['seed']) if any(x['routes'] > 0 for x in impl['ctxs']) else None
     tr = impl.get('trace') or []
     if c['kind'] == 'pop':
         return ('pop', c['seed']) if any(t.get('phase') == 1 for t in tr) else None
@@ -422,6 +493,12 @@ def classify(c, impl):
     if 'panic' in impl:
         return labs + ['panic']
     tr = impl.get('trace') or []
+    if c['kind'] == 'ctx':
+        for x in impl['ctxs']:
+            labs.append('ctx:%s:%s' % (x['make'], 'no-routes' if x['routes'] == 0 else ('job-less-route' if x['jobs_in_routes'] == 0 else 'routes')))
+        if impl['solve']:
+            labs.append('ctx:real-solve')
+        return sorted(set(labs))
     if c.get('brief'):
         e = (impl.get('brief_bad') or {}).get('max_err_exp', 0)
         return labs + ['long-stream', 'long-stream-max-error=' + ('inf' if e >= 5000 else '2^%d+' % (e // 256 * 256))]
@@ -450,6 +527,15 @@ def classify(c, impl):
 
 
 def shrink_candidates(c):
+    if c['kind'] == 'ctx':
+        if c.get('solve_gens'):
+            yield dict(c, solve_gens=0)
+        for k in range(len(c['make'])):
+            if len(c['make']) > 4:
+                yield dict(c, make=c['make'][:k] + c['make'][k + 1:])
+        if len(c['demands']) > 2:
+            yield dict(c, demands=c['demands'][:-1])
+        return
     ops = c['ops']
     for k in range(len(ops) - 1, -1, -1):
         d = dict(c)
